@@ -255,6 +255,8 @@ class InterpCore:
     def unpack(self, v, n, run, node, starred=()):
         if isinstance(v, ListV):
             v = tuple(v.items)
+        if isinstance(v, InstV) and isinstance(v.cls, ClassV) and v.cls.flags.get("namedtuple"):
+            v = tuple(v.attrs[k] for k in v.cls.flags["namedtuple"])  # a NamedTuple unpacks like the tuple of its fields
         if isinstance(v, tuple):
             if starred:
                 i = starred[0]
@@ -399,8 +401,27 @@ class InterpCore:
             mgrs.append(m)
             if item.optional_vars is not None:
                 self.assign(item.optional_vars, entered, env, run)
+        sup = [m for m in mgrs if isinstance(m, CtxMgrV) and m.kind == "suppress"]
+        n_eff_with = len(run.effects)
+        if sup:
+            # contextlib.suppress(E...): like try/except E: pass around the body (library may-raise notes fork into a raise inside it too)
+            if not hasattr(self, "catch_stack"):
+                self.catch_stack = []
+            self.catch_stack.append([t for m in sup for t in m.inner])
         try:
-            self.exec_block(s.body, env, run)
+            try:
+                self.exec_block(s.body, env, run)
+            finally:
+                if sup:
+                    self.catch_stack.pop()
+        except Raised as r:
+            if not any(self.exc_matches(r.cls, t) for m in sup for t in m.inner):
+                raise
+            run.notes.append(("handled", short_exc(r.cls), self.site(s)))
+            for i in range(len(run.effects) - 1, n_eff_with - 1, -1):
+                e = run.effects[i]
+                if e[0] == "raise-site" and e[1] == short_exc(r.cls):
+                    del run.effects[i]
         finally:
             for m in reversed(mgrs):
                 self.ctx_exit(m, run, s)
@@ -612,6 +633,12 @@ class InterpCore:
             v, e = env.lookup(func_expr.id)
             return e is not None and e.kind == "function"
         if isinstance(func_expr, ast.Attribute):
+            # `self._item_writer(...)`: a callable stored in an instance attribute is a value too (a method found on the class is not)
+            if isinstance(func_expr.value, ast.Name):
+                v, e = env.lookup(func_expr.value.id)
+                if isinstance(v, InstV) and e is not None and e.kind == "function" and func_expr.attr in v.attrs \
+                        and callable_target(v.attrs[func_expr.attr]) is not None:
+                    return True
             return False
         return True
 
@@ -1348,6 +1375,8 @@ class InterpCore:
             return None
         if isinstance(v, ClassV) and "enum" in v.flags:
             return list(v.flags["enum"].values())
+        if isinstance(v, InstV) and isinstance(v.cls, ClassV) and v.cls.flags.get("namedtuple"):
+            return [v.attrs[k] for k in v.cls.flags["namedtuple"]]
         self.limit(f"iteration over {v!r}", node)
 
     def truth(self, v, run, node) -> bool:
